@@ -35,7 +35,7 @@ Fails closed: any clang failure, unparsable default, guard idiom of unknown shap
 """
 import collections, concurrent.futures, glob, hashlib, heapq, json, os, re, subprocess, sys, time, zlib
 
-VERSION = "cg-16"
+VERSION = "cg-17"
 HERE = os.path.dirname(os.path.abspath(__file__))
 sys.path.insert(0, os.path.dirname(HERE))
 
@@ -249,6 +249,35 @@ def _increments(st, incr_funcs=None):
     return out
 
 
+def _incdec_pairs(body):
+    """the `counter++ ... counter--` idiom: for every depth counter a function both increments and decrements,
+    1 if no return/goto lies between an increment and the next decrement (source order), 0 if one does;
+    2 for a counter the function only increments or only decrements (include depth: begin_include/end_include)"""
+    pos = 0
+    incs, decs, exits = {}, {}, []
+    for x in _walk(body):
+        pos += 1
+        k = x.get("kind")
+        if k == "UnaryOperator" and x.get("opcode") in ("++", "--"):
+            for c in _counters_in(x):
+                if c != "stack_top":
+                    (incs if x["opcode"] == "++" else decs).setdefault(c, []).append(pos)
+        elif k in ("ReturnStmt", "GotoStmt"):
+            exits.append(pos)
+    out = []
+    for c in sorted(set(incs) | set(decs)):
+        if c in incs and c in decs:
+            ok = True
+            for i in incs[c]:
+                later = [j for j in decs[c] if j > i]
+                if not later or any(i < e < min(later) for e in exits):
+                    ok = False
+            out.append([c, 1 if ok else 0])
+        else:
+            out.append([c, 2])
+    return out
+
+
 def _top_statements(body):
     """statements of the function's top-level block, flattening directly nested plain blocks"""
     out = []
@@ -439,6 +468,7 @@ def summarize_tu(ast, path):
                     if g is not None and tuple(g) not in top_guards:
                         fsum["guards"].append(list(g) + ["nested"])
             fsum["addr"] = sorted(fsum["addr"])
+            fsum["incdec"] = _incdec_pairs(body)
             funcs[d["name"]] = fsum
     return dict(file=base, funcs=funcs, tables=tables, typedefs=typedefs, addr_global=sorted(addr_global))
 
@@ -876,6 +906,7 @@ def build_graph(repo, cache=None, jobs=None, log=lambda *a: None):
             for i in range(1, c + 1):
                 txt = "%s -> %s [%s] (%s) #%d" % (u, v, lab, args, i)
                 rsites.append((txt, zlib.crc32(txt.encode())))
+    incdec = sorted((n, c, f) for n, fs in allf.items() for c, f in fs.get("incdec", []) if n in set(seen.values()))
     reach_bases = set(seen.values())
     all_guards = {n: f["guards"] for n, f in allf.items() if f["guards"] and n in reach_bases}
     limits_read = sorted({g[0] for gs in all_guards.values() for g in gs})
@@ -883,7 +914,7 @@ def build_graph(repo, cache=None, jobs=None, log=lambda *a: None):
     log("graph: %d functions defined, %d nodes reachable from main, %d on cycles, %d intra-SCC edges (%d guarded, %d assumed, %d residual), residual groups %s (%.1fs)" % (
         len(allf), len(reach), len(nodes), len(E), sum(1 for e in E if e[2] in real),
         sum(1 for e in E if e[2] and e[2] not in real), len(residual), sorted(residual_groups), time.time() - t0))
-    return dict(nodes=order, edges=E, residual=residual, residual_groups=residual_groups, witnesses=witnesses, residual_sites=rsites,
+    return dict(nodes=order, edges=E, residual=residual, residual_groups=residual_groups, witnesses=witnesses, residual_sites=rsites, incdec=incdec,
                 classes=classes, all_guards=all_guards, limits_read=limits_read, kinds=dict(kinds),
                 unresolved=sorted(unresolved), nfuncs=len(allf), nreach=len(reach),
                 assumed_used=sorted(assumed_used), assumed_stale=sorted(set(ASSUMED) - assumed_used),
@@ -989,6 +1020,12 @@ def emit_lean(g, d):
     L.append("]")
     L.append("")
     L.append("def residualSiteIds : List Nat := [" + ", ".join(str(i) for _, i in g["residual_sites"]) + "]")
+    L.append("")
+    L.append("/-- the `counter++ ... counter--` idiom, per function and depth counter: 1 = no return/goto between an increment and")
+    L.append("    the next decrement, 0 = an early exit lies in between (the counter leaks), 2 = only one side in this function -/")
+    L.append("def incDecPairs : List (String × String × Nat) := [")
+    L.append(",\n".join("  (%s, %s, %d)" % (lean_str(n), lean_str(c), f) for n, c, f in g["incdec"]))
+    L.append("]")
     L.append("")
     L.append("/-- limits that some guard idiom of the reachable code actually reads -/")
     L.append("def limitsRead : List String := [" + ", ".join(lean_str(x) for x in g["limits_read"]) + "]")
